@@ -273,7 +273,7 @@ impl Property for C33 {
         ]
     }
     fn cases(&self, tier: Tier) -> u32 {
-        tier.pick(8_000, 500_000)
+        tier.pick(16_000, 500_000)
     }
     fn strategy(&self, _tier: Tier) -> BoxedStrategy<Case> {
         // files come in clusters around one module path: the same relative path under several roots, `x.lua` next to
